@@ -726,3 +726,63 @@ func ruleConstDecodedPlainly(c *Ctx, rule string) {
 	}
 	c.R.Floor(rule, "explicit decodings of const", n, 1)
 }
+
+func init() {
+	for _, pid := range []string{"C15", "C08"} {
+		pid := pid
+		Properties[pid].Rules = append(Properties[pid].Rules, Rule{pid + "/unwrapped-by-kind", func(c *Ctx) { ruleUnwrappedByKind(c, pid+"/unwrapped-by-kind") }})
+	}
+}
+
+// A wrapper (interface or pointer) around an instance is recognised by its kind, never by comparing its type with
+// one particular type: `v.Type() == reflect.TypeFor[any]()` misses every named interface type (type Value interface{}),
+// whose values then go on wrapped and are treated as "neither object nor array".
+func ruleUnwrappedByKind(c *Ctx, rule string) {
+	n := 0
+	seen := map[*ssa.Function]bool{}
+	for _, cl := range []string{"DEF", "EV", "EQ"} {
+		for _, fn := range c.Closure(rule, cl).Sorted() {
+			if seen[fn] || !c.P.InPkg(fn) {
+				continue
+			}
+			seen[fn] = true
+			k := 0
+			core.EachInstr(fn, func(i ssa.Instruction) {
+				call, ok := i.(*ssa.Call)
+				if !ok || core.CalleeKey(&call.Call) != "reflect.Value.Elem" || !tReflectValue(call.Call.Args[0].Type()) {
+					return
+				}
+				v := call.Call.Args[0]
+				byType, byKind := "", false
+				for _, g := range guardsLocal(call) {
+					for _, x := range append(backSlice(g.Cond, 8), g.Cond) {
+						cc, ok := x.(*ssa.Call)
+						if !ok || len(cc.Call.Args) == 0 || !(cc.Call.Args[0] == v || sharesSource(cc.Call.Args[0], v)) {
+							continue
+						}
+						switch core.CalleeKey(&cc.Call) {
+						case "reflect.Value.Kind":
+							byKind = true
+						case "reflect.Value.Type":
+							// compared for identity with another type (not asked for its kind, key or element)
+							if refs := cc.Referrers(); refs != nil {
+								for _, r := range *refs {
+									if bo, ok := r.(*ssa.BinOp); ok && (bo.Op == token.EQL || bo.Op == token.NEQ) {
+										byType = c.pos(bo)
+									}
+								}
+							}
+						}
+					}
+				}
+				if byType == "" && !byKind {
+					return
+				}
+				n++
+				k++
+				c.R.Check(byKind || byType == "", rule, fmt.Sprintf("%s:unwrap#%d", core.FuncName(fn), k), c.pos(call), "the wrapper is recognised by its kind", "a wrapped instance is unwrapped only where its type is identical to one particular type (test at "+byType+") instead of where its kind is Interface or Pointer: a value held in a named interface type (type Value interface{}; map[string]Value) stays wrapped, is taken for neither an object nor an array, and the defaults below it are not applied (or the keywords below it not evaluated)")
+			})
+		}
+	}
+	c.R.Floor(rule, "unwrappings of an instance under a test of it", n, 3)
+}
